@@ -253,9 +253,27 @@ pub fn write_file_with(r: &mut Rng, c: &mut Counters, style: &Style, version: &s
             w.out.extend_from_slice(b"endobj"); w.eol();
             out = w.out;
         }
-        for (lid, len) in pending_lengths {
-            entries.insert(lid, (1, (out.len() - base) as u64, 0));
-            out.extend_from_slice(format!("{} 0 obj\n{}\nendobj\n", lid, len).as_bytes());
+        // the integers that indirect Lengths point to: plain objects, or (legal and unusual) members of an object stream of their own
+        let lengths_in_stm = !pending_lengths.is_empty() && style.objstm && style.xref == XrefStyle::Stream && objstm_in(ri) && r.chance(1, 2);
+        if lengths_in_stm {
+            let cid = next_free; next_free += 1; containers.push(cid);
+            let mut body: Vec<u8> = vec![]; let mut index = String::new();
+            for (k, (lid, len)) in pending_lengths.iter().enumerate() {
+                index.push_str(&format!("{} {} ", lid, body.len()));
+                body.extend_from_slice(format!("{} ", len).as_bytes());
+                entries.insert(*lid, (2, cid as u64, k as u64));
+            }
+            let first = index.len();
+            let mut content = index.into_bytes(); content.extend_from_slice(&body);
+            entries.insert(cid, (1, (out.len() - base) as u64, 0));
+            out.extend_from_slice(format!("{} 0 obj\n<< /Type /ObjStm /N {} /First {} /Length {} >>\nstream\n", cid, pending_lengths.len(), first, content.len()).as_bytes());
+            out.extend_from_slice(&content); out.extend_from_slice(b"\nendstream\nendobj\n");
+            hit(c, "stream.indirect_length_in_objstm");
+        } else {
+            for (lid, len) in pending_lengths {
+                entries.insert(lid, (1, (out.len() - base) as u64, 0));
+                out.extend_from_slice(format!("{} 0 obj\n{}\nendobj\n", lid, len).as_bytes());
+            }
         }
         // object streams
         if !in_stm.is_empty() {
